@@ -25,7 +25,13 @@ def py_pos(ref):
     if ref[0] == "index":
         return ref[1]
     if ref[0] == "tuple":
-        return tuple(ref[1])
+        import numpy as np
+        how = ref[2] if len(ref) > 2 else "tuple"
+        return {"tuple": lambda: tuple(ref[1]), "list": lambda: list(ref[1]), "int8": lambda: np.array(ref[1], dtype=np.int8),
+                "int64": lambda: np.array(ref[1], dtype=np.int64), "float": lambda: [v + 0.25 for v in ref[1]],
+                "float32": lambda: np.array([v + 0.5 for v in ref[1]], dtype=np.float32)}[how]()
+    if len(ref) > 2 and ref[2] == "float":
+        return _Pos(*[v + 0.25 for v in ref[1]])        # a point inside the cell
     return _Pos(*ref[1])
 
 
@@ -270,7 +276,8 @@ def rand_pos(rng, desc, invalid=0.08):
                                ["object", [0, 0, sp["d"]]]])
         c = rng.randrange(n)
         xyz = [c % sp["w"], (c // sp["w"]) % sp["h"], c // (sp["w"] * sp["h"])]
-        return rng.choice([["index", c], ["tuple", xyz], ["object", xyz]])
+        return rng.choice([["index", c], ["tuple", xyz], ["object", xyz],
+                           ["tuple", xyz, rng.choice(["list", "int8", "int64", "float", "float32"])], ["object", xyz, rng.choice(["int", "float"])]])
     if rng.random() < invalid:
         return rng.choice([["index", n], ["index", -1]])
     return ["index", rng.randrange(n)]
